@@ -1,5 +1,7 @@
 """C17 — no sequence of constructions and assignments yields an invalid region."""
 import ast
+
+import sympy as sp
 import itertools
 
 from ..astutil import (call_name, calls_in, dotted, enclosing_tests, func_params,
@@ -151,7 +153,8 @@ def r3(ctx):
                         bad = norm(node)
             elif isinstance(node, ast.Call):
                 nm = call_name(node) or ''
-                if nm in ('object.__setattr__', 'setattr') or nm.endswith('.__dict__.update') or nm.endswith('__dict__.__setitem__'):
+                # (plain setattr(obj, name, v) is an ordinary attribute store and goes through the descriptors)
+                if nm in ('object.__setattr__',) or nm.endswith('.__dict__.update') or nm.endswith('__dict__.__setitem__'):
                     bad = norm(node)
             if bad:
                 n += 1
@@ -563,8 +566,14 @@ def r6(ctx):
         if not tests:
             continue
         cfg = CFG(fn, exceptions=False)
+        def maps_key(v):
+            if 'key_mapping' in norm(v):
+                return True
+            # a helper method of the class that looks the key up in key_mapping
+            return isinstance(v, ast.Call) and any(h.cls == f.cls and 'key_mapping' in ast.unparse(h.node)
+                                                   for h in (m.resolve_call(f, v) or ()))
         maps = [i for i, st in cfg.stmt.items() if cfg.kind[i] == 'stmt' and isinstance(st, ast.Assign)
-                and norm(st.targets[0]) == 'key' and 'key_mapping' in norm(st.value)]
+                and norm(st.targets[0]) == 'key' and maps_key(st.value)]
         tn = [i for i, st in cfg.stmt.items() if cfg.kind[i] == 'test' and any(t is x for t in tests for x in ast.walk(st.test))]
         if maps and tn and cfg.must_pass(tn, maps):
             ctx.ok(f'Meta.{name}:alias', 'presence is tested on the mapped key')
@@ -651,79 +660,101 @@ ADDERS = ('__init__', 'append', 'extend', 'insert', '__setitem__', '__iadd__')
 
 
 def r7(ctx):
+    """only regions enter a region list: every method that adds to the list is partially evaluated with a member that is
+    not a region (a PixCoord) — it must raise TypeError and leave the list as it was — and with regions, which must all be
+    stored. Lists are validated after being materialised once (a one-shot iterator read twice is empty when stored)."""
     m = ctx.model
     ci = m.cls('Regions')
+    pc_ci = m.cls('PixCoord')
     n = 0
-    for name, f in sorted(ci.methods.items()):
-        fn = f.node
-        adds = []
-        for st in stmts_of(fn):
-            for c in calls_in(st) if not isinstance(st, (ast.If, ast.For, ast.While, ast.With, ast.Try)) else []:
-                nm = call_name(c) or ''
-                if nm in ('self.regions.append', 'self.regions.extend', 'self.regions.insert', 'self.regions.__setitem__'):
-                    adds.append((st, c))
-            if isinstance(st, ast.Assign) and norm(st.targets[0]) == 'self.regions':
-                adds.append((st, st.value))
-            if isinstance(st, ast.Assign) and isinstance(st.targets[0], ast.Subscript) and \
-                    norm(st.targets[0].value) == 'self.regions':
-                adds.append((st, st.value))
-        if not adds:
+
+    def fresh(ev):
+        good1 = ev.symbolic_instance(m.cls('CirclePixelRegion'), 'good1')
+        good2 = ev.symbolic_instance(m.cls('CirclePixelRegion'), 'good2')
+        bad = ev.symbolic_instance(pc_ci, 'notaregion')
+        return good1, good2, bad
+
+    def run(name, make_args, start):
+        ev = evaluator(ctx)
+        g1, g2, bad = fresh(ev)
+        self_ = Obj('Regions', {'regions': Tup(tuple(start(g1, g2, bad)), 'list')}, 'self', ci)
+        before = self_.fields['regions']
+        out = ev.run(ci.methods[name], [self_] + make_args(g1, g2, bad), {})
+        definite = [nm for pc_, nm, _ in out.raises if not [c for c in pc_ if not (isinstance(c, Const) and c.v is True)]]
+        possible = sorted({nm for _, nm, _ in out.raises})
+        return self_, before, out, definite, possible
+
+    cases = []
+    if 'append' in ci.methods:
+        cases.append(('append', 'one', lambda g1, g2, b: [b], lambda g1, g2, b: [g2], lambda g1, g2, b: [g1]))
+    if 'insert' in ci.methods:
+        cases.append(('insert', 'one', lambda g1, g2, b: [sp.Integer(0), b], lambda g1, g2, b: [sp.Integer(0), g2], lambda g1, g2, b: [g1]))
+    for nm in ('__init__', 'extend'):
+        if nm in ci.methods:
+            cases.append((nm, 'many', lambda g1, g2, b: [Tup((g1, b), 'list')], lambda g1, g2, b: [Tup((g1, g2), 'list')],
+                          lambda g1, g2, b: []))
+    for name, kind, bad_args, good_args, start in cases:
+        n += 1
+        construct = f'Regions.{name}'
+        s1, before, out, definite, possible = run(name, bad_args, start)
+        probs = []
+        if 'TypeError' not in definite:
+            probs.append(f'a member that is not a region ({"in a list after a region" if kind == "many" else "given directly"}) is not '
+                         f'rejected with TypeError (raises {possible or "nothing"})')
+        after = s1.fields.get('regions')
+        if name != '__init__' and not same(after, before) and 'notaregion' in show(after, 400):
+            probs.append(f'the rejected member is in the list afterwards: {show(after, 120)}')
+        s2, before2, out2, definite2, possible2 = run(name, good_args, start)
+        after2 = show(s2.fields.get('regions'), 400)
+        if definite2 or not all(k in after2 for k in (['good1', 'good2'])):
+            probs.append(f'regions are not all stored (list afterwards {after2[:120]}, raises {possible2})')
+        if probs:
+            ctx.bad(construct, 'unchecked-add', '; '.join(probs) + ': non-region members can enter the list', ci.methods[name].loc())
+        else:
+            ctx.ok(construct, 'a non-region member raises TypeError and leaves the list as it was; regions are stored')
+    ctx.need(n >= 4, 'list-adding methods', f'only {n}')
+    # one-shot iterables: in the method or the helper that validates the items of a parameter in a loop, the parameter is
+    # materialised (list(...)/tuple(...)) before the loop, and the materialised list is what is stored
+    n2 = 0
+    seen = set()
+    for name in ('__init__', 'extend'):
+        f = ci.methods.get(name)
+        if f is None:
             continue
-        pm = parents(fn)
-        cfg = CFG(fn, exceptions=False)
-        for st, c in adds:
-            n += 1
-            # what is added
-            if isinstance(c, ast.Call):
-                added = c.args[-1] if c.args else None
-            else:
-                added = c
-            aname = norm(added) if added is not None else '?'
-            # trusted source: another Regions' list
-            if aname.endswith('.regions') and any(
-                    pol and 'isinstance' in norm(t) and 'Regions' in norm(t) for t, pol in enclosing_tests(fn, st, pm)):
-                ctx.ok(f'Regions.{name}:{aname}', 'elements come from another Regions object')
+        scopes = [f] + [g for c in calls_in(f.node) for g in (m.resolve_call(f, c) or ()) if g.module == f.module and g is not f]
+        for g in scopes:
+            if g.qualname in seen:
                 continue
-            # find isinstance(<x>, Region) -> raise TypeError guards
-            guards = []
-            for i, s2 in cfg.stmt.items():
-                if cfg.kind[i] == 'test' and 'isinstance' in norm(s2.test) and 'Region' in norm(s2.test) \
-                        and any(isinstance(x, ast.Raise) and 'TypeError' in norm(x) for x in s2.body):
-                    tn = norm(s2.test)
-                    # guard on the element itself or on every item of the added iterable
-                    if aname in tn:
-                        guards.append(i)
-                    else:
-                        cur = s2
-                        while cur in pm:
-                            cur = pm[cur]
-                            if isinstance(cur, ast.For) and norm(cur.iter) == aname and \
-                                    norm(cur.target) in tn:
-                                guards.append([j for j, s3 in cfg.stmt.items() if s3 is cur][0])
-                                break
-            target = [i for i, s3 in cfg.stmt.items() if s3 is st]
-            # the validating loop and the addition both read the iterable: it must have been materialised first
-            # (a one-shot iterator is empty by the time it is stored), i.e. rebound to list(...)/tuple(...) before
-            loops = [g for g in guards if isinstance(cfg.stmt[g], ast.For)]
+            fn = g.node
             params = set(func_params(fn))
-            if loops and isinstance(added, ast.Name) and added.id in params:
-                mats = [i for i, s3 in cfg.stmt.items() if cfg.kind[i] == 'stmt' and isinstance(s3, ast.Assign)
-                        and norm(s3.targets[0]) == aname and isinstance(s3.value, ast.Call)
-                        and (call_name(s3.value) or '') in ('list', 'tuple') and s3.value.args
-                        and norm(s3.value.args[0]) == aname]
-                if not (mats and cfg.must_pass(loops, mats)):
-                    ctx.bad(f'Regions.{name}', f'iterable-read-twice:{aname}',
-                            f'`{aname}` is iterated to validate its items and then added by `{norm(st)[:60]}`: a one-shot '
-                            'iterator/generator passes the check and is empty when it is stored (the regions are silently '
-                            'lost); it must be materialised once (list(...)) before both', f.loc(st))
+            cfg = CFG(fn, exceptions=False)
+            loops = [(i, st, st.iter.id) for i, st in cfg.stmt.items() if isinstance(st, ast.For) and isinstance(st.iter, ast.Name)
+                     and st.iter.id in params and any(isinstance(x, ast.Call) and call_name(x) == 'isinstance' for x in ast.walk(st))]
+            # a validating comprehension / generator expression (all(isinstance(x, Region) for x in regions)) counts too
+            for i, st in cfg.stmt.items():
+                hay = st.test if cfg.kind[i] == 'test' else (st if cfg.kind[i] == 'stmt' else None)
+                if hay is None or isinstance(st, ast.For):
                     continue
-            if guards and target and cfg.must_pass(target, guards):
-                ctx.ok(f'Regions.{name}:{aname}', 'isinstance(…, Region) test raising TypeError dominates the addition')
-            else:
-                ctx.bad(f'Regions.{name}', f'unchecked-add:{aname}',
-                        f'`{norm(st)}` adds `{aname}` to the region list without an isinstance(…, Region) test raising '
-                        'TypeError: non-region members can enter the list', f.loc(st))
-    ctx.need(n >= 4, 'list-adding statements', f'only {n}')
+                for comp in ast.walk(hay):
+                    if isinstance(comp, (ast.GeneratorExp, ast.ListComp, ast.SetComp)) and any(
+                            isinstance(x, ast.Call) and call_name(x) == 'isinstance' for x in ast.walk(comp)):
+                        for gen in comp.generators:
+                            if isinstance(gen.iter, ast.Name) and gen.iter.id in params:
+                                loops.append((i, st, gen.iter.id))
+            for i, st, aname in loops:
+                seen.add(g.qualname)
+                n2 += 1
+                mats = [j for j, s3 in cfg.stmt.items() if cfg.kind[j] == 'stmt' and isinstance(s3, ast.Assign)
+                        and norm(s3.targets[0]) == aname and isinstance(s3.value, ast.Call)
+                        and (call_name(s3.value) or '') in ('list', 'tuple') and s3.value.args and norm(s3.value.args[0]) == aname]
+                if mats and cfg.must_pass([i], mats):
+                    ctx.ok(f'{g.qualname.split(":")[1]}:{aname} materialised', 'list(...) before the validating loop')
+                else:
+                    ctx.bad(f'Regions.{name}', f'iterable-read-twice:{aname}',
+                            f'`{aname}` is iterated to validate its items and then stored: a one-shot iterator/generator passes the '
+                            'check and is empty when it is stored (the regions are silently lost); it must be materialised once '
+                            '(list(...)) before both', g.loc(st))
+    ctx.need(n2 >= 1, 'validating loops', 'no loop validating the items of a list parameter found')
 
 
 def r8(ctx):
@@ -756,33 +787,41 @@ def r9(ctx):
     object handed out by the descriptor in place and then assigns it. If __get__ hands out the stored Quantity itself, the
     stored value is already -3 deg when the validator rejects the assignment. Quantity-valued attributes must therefore be
     handed out and taken in by value (a copy)."""
+    from ..vg import DictV
     m = ctx.model
     for name in QUANTITY_DESCRIPTORS:
         ci = m.cls(name)
         ctx.need(ci is not None, name, 'descriptor class not found')
-        for meth, what in (('__get__', 'hands out'), ('__set__', 'stores')):
-            f = m.method(ci, meth)
-            ctx.need(f is not None, f'{name}.{meth}', 'not found')
-            construct = f'{name}.{meth}'
-            if meth == '__get__':
-                exprs = [r.value for r in ast.walk(f.node) if isinstance(r, ast.Return) and r.value is not None
-                         and '__dict__' in norm(r.value)]
-            else:
-                exprs = [st.value for st in ast.walk(f.node) if isinstance(st, ast.Assign)
-                         and isinstance(st.targets[0], ast.Subscript) and '__dict__' in norm(st.targets[0])]
-            ctx.need(exprs, construct, 'no access to instance.__dict__ found')
-
-            def is_copy(e):
-                return isinstance(e, ast.Call) and ((isinstance(e.func, ast.Attribute) and e.func.attr in ('copy', '__copy__', '__deepcopy__'))
-                                                    or (call_name(e) or '').split('.')[-1] in ('copy', 'deepcopy', 'Quantity', 'Angle'))
-            bare = [e for e in exprs if not is_copy(e)]
-            if bare:
-                ctx.bad(construct, 'by-reference',
-                        f'{name} {what} the Quantity object itself (`{norm(bare[0])[:60]}`): `region.attr *= -1` updates that object in '
-                        'place before the validator rejects the assignment, so a rejected operation has changed the region '
-                        '(and a caller\'s or a default Quantity stays shared with the region)', f.loc())
-            else:
-                ctx.ok(construct, f'{what} a copy')
+        getf, setf, valf = m.method(ci, '__get__'), m.method(ci, '__set__'), m.method(ci, '_validate')
+        ctx.need(getf is not None and setf is not None and valf is not None, name, '__get__/__set__/_validate not found')
+        stored, given = Obj('Quantity', {}, 'STORED'), Obj('Quantity', {}, 'GIVEN')
+        d = DictV([{'attr': stored}])
+        inst = Obj('Region', {'__dict__': d}, 'instance')
+        desc = Obj(name, {'name': Const('attr')}, 'descriptor', ci)
+        ev = Evaluator(m, hooks={valf.qualname: lambda e, a_, k_: Const(None)})
+        out = ev.run(getf, [desc, inst, Const(None)], {})
+        got = [v for _, v in out.returns]
+        construct = f'{name}.__get__'
+        ctx.need(len(got) == 1, construct, f'{len(got)} outcomes')
+        if same(got[0], stored):
+            ctx.bad(construct, 'by-reference',
+                    f'{name} hands out the stored Quantity object itself: `region.attr *= -1` updates that object in place before the '
+                    'validator rejects the assignment, so a rejected operation has changed the region', getf.loc())
+        elif 'STORED' in show(got[0], 200):
+            ctx.ok(construct, f'hands out {show(got[0], 60)}')
+        else:
+            raise AnalysisError('C17.R9', construct, f'value handed out not understood: {show(got[0], 120)}')
+        ev.run(setf, [desc, inst, given], {})
+        now = d.get('attr')
+        construct = f'{name}.__set__'
+        if now is None or same(now, given):
+            ctx.bad(construct, 'by-reference',
+                    f'{name} stores the Quantity object it is given: a caller\'s (or a default) Quantity stays shared with the '
+                    'region and an in-place update of it changes the region behind the validator', setf.loc())
+        elif 'GIVEN' in show(now, 200):
+            ctx.ok(construct, f'stores {show(now, 60)}')
+        else:
+            raise AnalysisError('C17.R9', construct, f'stored value not understood: {show(now, 120)}')
 
 
 RULES = [
